@@ -132,3 +132,10 @@ def c12_5(ctx, r):
     from .c18 import submit_returns
 
     submit_returns(ctx, r, "C12.5")
+
+
+@rule(P, "C12.6", "T2", "a round determines which batches are still active before it collects results (finished jobs keep their results)", min_obligations=2)
+def c12_6(ctx, r):
+    from .c05 import poll_before_collect
+
+    poll_before_collect(ctx, r, "C12.6")
